@@ -115,11 +115,17 @@ Orders(ty) ==
        IN IF n > 5 THEN {id, Rev(id)} \cup withU(id)
           ELSE subs \cup UNION {withU(f) : f \in subs}
 UnknownName == <<122, 122, 85, 110, 107>>           \* "zzUnk"
-DefOctets(ty, order, upper) ==
+(* a wire name that differs from a Go field's name only in the case of its SECOND letter: *)
+(* not a field of the Go type (only the first letter is matched case-insensitively)       *)
+IsLetter(x) == (x >= 65 /\ x <= 90) \/ (x >= 97 /\ x <= 122)
+FlipCase(x) == IF x >= 97 THEN x - 32 ELSE x + 32
+NearNames(ty) == {[Lower1(ty.fn[j]) EXCEPT ![2] = FlipCase(@)] : j \in {i \in 1..Len(ty.fn) : Len(ty.fn[i]) >= 2 /\ IsLetter(ty.fn[i][2])}}
+UnknownNames(ty) == {UnknownName} \cup NearNames(ty)
+DefOctets(ty, order, upper, unk) ==
   LET name == IF ty.hasreg = 1 THEN ty.reg ELSE ty.name
       RECURSIVE Names(_)
       Names(k) == IF k > Len(order) THEN <<>>
-                  ELSE ShortStr(IF order[k] = 0 THEN UnknownName
+                  ELSE ShortStr(IF order[k] = 0 THEN unk
                                 ELSE IF upper THEN ty.fn[order[k]] ELSE Lower1(ty.fn[order[k]])) \o Names(k + 1)
   IN <<67>> \o ShortStr(name) \o IntMin(Len(order)) \o Names(1)
 (* unrelated definition number i (hoisted in front): class "Dxx" without fields *)
@@ -202,9 +208,10 @@ EmitDef == /\ todo # <<>> /\ Top.k = "slot" /\ IsPtr(Top.s) /\ bind[Top.s.i] = -
               \/ (DefMode = "vary" /\ Cardinality(DefsOf(Node(Top.s).t)) = 1)      \* define the class a second time
            /\ LET t == Node(Top.s).t  ty == Ty(t)  again == DefIndex(t) # 0 IN
               \E order \in Orders(ty) : \E upper \in (IF DefMode = "vary" THEN {FALSE, TRUE} ELSE {FALSE}) :
+              \E unk \in (IF \E k \in 1..Len(order) : order[k] = 0 THEN UnknownNames(ty) ELSE {UnknownName}) :
                  /\ (again => order # cls[DefIndex(t)].order)
                  /\ Pick(Opt(<<>>, IF again \/ upper \/ order # [j \in 1..Len(ty.fn) |-> j] THEN 1 ELSE 0))
-                 /\ out' = out \o DefOctets(ty, order, upper)
+                 /\ out' = out \o DefOctets(ty, order, upper, unk)
                  /\ cls' = Append(cls, [t |-> t, order |-> order])
            /\ UNCHANGED <<vi, todo, typ, bind, nref, dropped, done>>
 
